@@ -23,25 +23,23 @@ package geojson
 //@   loop 1 `for i, point := range points`
 //@     invariant fresh(coordinates) && len(coordinates) == len(points) && #1 <= len(points) && (forall k int :: 0 <= k && k < #1 ==> isXY(coordinates[k], points[k]))
 
-// Nested levels: govc keeps every slice-of-slices in one heap, so "member k is
-// unchanged while member i is stored" cannot be carried through the loop for
-// doubly nested slices (spurious aliasing between nesting levels); the nested
-// converters are proved member by member at the point where the member is stored.
 //@ func pointssCoordinates
 //@   prop C06
 //@   mode fp
-//@   ensures [shape] fresh(result) && len(result) == len(pointss)
+//@   ensures [xyss] fresh(result) && isXYss(result, pointss)
 //@   modifies nothing
 //@   loop 1 `for i, points := range pointss`
-//@     invariant fresh(coordinates) && len(coordinates) == len(pointss) && #1 <= len(pointss)
+//@     invariant [basic] fresh(coordinates) && len(coordinates) == len(pointss) && #1 <= len(pointss)
+//@     invariant [members] forall k int :: 0 <= k && k < #1 ==> isXYs(coordinates[k], pointss[k])
 
 //@ func pointsssCoordinates
 //@   prop C06
 //@   mode fp
-//@   ensures [shape] fresh(result) && len(result) == len(pointsss)
+//@   ensures [xysss] fresh(result) && isXYsss(result, pointsss)
 //@   modifies nothing
 //@   loop 1 `for i, points := range pointsss`
-//@     invariant fresh(coordinates) && len(coordinates) == len(pointsss) && #1 <= len(pointsss)
+//@     invariant [basic] fresh(coordinates) && len(coordinates) == len(pointsss) && #1 <= len(pointsss)
+//@     invariant [members] forall k int :: 0 <= k && k < #1 ==> isXYss(coordinates[k], pointsss[k])
 
 //@ func ToGeoJSON
 //@   prop C06
@@ -49,15 +47,15 @@ package geojson
 //@   ensures [point] typeof(g) == geom.Point ==> result1 == nil && result0 != nil && result0.Type == "Point" && typeof(result0.Coordinates) == []float64 && isXY(result0.Coordinates.([]float64), g.(geom.Point))
 //@   ensures [multipoint] typeof(g) == geom.MultiPoint ==> result1 == nil && result0 != nil && result0.Type == "MultiPoint" && typeof(result0.Coordinates) == [][]float64 && isXYs(result0.Coordinates.([][]float64), g.(geom.MultiPoint))
 //@   ensures [linestring] typeof(g) == geom.LineString ==> result1 == nil && result0 != nil && result0.Type == "LineString" && typeof(result0.Coordinates) == [][]float64 && isXYs(result0.Coordinates.([][]float64), g.(geom.LineString))
-//@   ensures [multilinestring] typeof(g) == geom.MultiLineString ==> result1 == nil && result0 != nil && result0.Type == "MultiLineString" && typeof(result0.Coordinates) == [][][]float64 && len(result0.Coordinates.([][][]float64)) == len(g.(geom.MultiLineString))
-//@   ensures [polygon] typeof(g) == geom.Polygon ==> result1 == nil && result0 != nil && result0.Type == "Polygon" && typeof(result0.Coordinates) == [][][]float64 && len(result0.Coordinates.([][][]float64)) == len(g.(geom.Polygon))
-//@   ensures [multipolygon] typeof(g) == geom.MultiPolygon ==> result1 == nil && result0 != nil && result0.Type == "MultiPolygon" && typeof(result0.Coordinates) == [][][][]float64 && len(result0.Coordinates.([][][][]float64)) == len(g.(geom.MultiPolygon))
+//@   ensures [multilinestring] typeof(g) == geom.MultiLineString ==> result1 == nil && result0 != nil && result0.Type == "MultiLineString" && typeof(result0.Coordinates) == [][][]float64 && isXYss(result0.Coordinates.([][][]float64), g.(geom.MultiLineString))
+//@   ensures [polygon] typeof(g) == geom.Polygon ==> result1 == nil && result0 != nil && result0.Type == "Polygon" && typeof(result0.Coordinates) == [][][]float64 && isXYss(result0.Coordinates.([][][]float64), g.(geom.Polygon))
+//@   ensures [multipolygon] typeof(g) == geom.MultiPolygon ==> result1 == nil && result0 != nil && result0.Type == "MultiPolygon" && typeof(result0.Coordinates) == [][][][]float64 && isXYsss(result0.Coordinates.([][][][]float64), g.(geom.MultiPolygon))
 //@   ensures [unsupported] typeof(g) != geom.Point && typeof(g) != geom.MultiPoint && typeof(g) != geom.LineString && typeof(g) != geom.MultiLineString && typeof(g) != geom.Polygon && typeof(g) != geom.MultiPolygon ==> result0 == nil && result1 != nil
 //@   modifies nothing
 //@   loop 1 `for i, line := range lines`
-//@     invariant fresh(paths) && len(paths) == len(lines) && #1 <= len(lines)
+//@     invariant fresh(paths) && len(paths) == len(lines) && #1 <= len(lines) && (forall k int :: 0 <= k && k < #1 ==> paths[k] == lines[k])
 //@   loop 2 `for i, poly := range polys`
-//@     invariant fresh(pathsList) && len(pathsList) == len(polys) && #2 <= len(polys)
+//@     invariant fresh(pathsList) && len(pathsList) == len(polys) && #2 <= len(polys) && (forall k int :: 0 <= k && k < #2 ==> pathsList[k] == polys[k])
 
 // ---- decoding ----
 //@ pred numArray(j interface{}) = typeof(j) == []interface{} && (forall i int :: 0 <= i && i < len(j.([]interface{})) ==> typeof(j.([]interface{})[i]) == float64)
@@ -66,6 +64,8 @@ package geojson
 //@ pred numArray2(j interface{}) = typeof(j) == []interface{} && (forall i int :: 0 <= i && i < len(j.([]interface{})) ==> numArray(j.([]interface{})[i]))
 //@ pred jIs2(j interface{}, cs [][]float64) = typeof(j) == []interface{} && len(j.([]interface{})) == len(cs) && (forall i int :: 0 <= i && i < len(cs) ==> jIs1(j.([]interface{})[i], cs[i]))
 //@ pred numArray3(j interface{}) = typeof(j) == []interface{} && (forall i int :: 0 <= i && i < len(j.([]interface{})) ==> numArray2(j.([]interface{})[i]))
+//@ pred jIs3(j interface{}, css [][][]float64) = typeof(j) == []interface{} && len(j.([]interface{})) == len(css) && (forall i int :: 0 <= i && i < len(css) ==> jIs2(j.([]interface{})[i], css[i]))
+//@ pred jIs4(j interface{}, csss [][][][]float64) = typeof(j) == []interface{} && len(j.([]interface{})) == len(csss) && (forall i int :: 0 <= i && i < len(csss) ==> jIs3(j.([]interface{})[i], csss[i]))
 //@ pred numArray4(j interface{}) = typeof(j) == []interface{} && (forall i int :: 0 <= i && i < len(j.([]interface{})) ==> numArray3(j.([]interface{})[i]))
 
 //@ func decodeCoordinates
@@ -90,19 +90,21 @@ package geojson
 //@   prop C06, C07
 //@   mode fp
 //@   panics [not_a_3_level_number_array] !numArray3(jsonCoordinates)
-//@   ensures [shape] fresh(result) && typeof(jsonCoordinates) == []interface{} && len(result) == len(jsonCoordinates.([]interface{}))
+//@   ensures [values] fresh(result) && jIs3(jsonCoordinates, result)
 //@   modifies nothing
 //@   loop 1 `for i, element := range array`
-//@     invariant fresh(coordinates) && len(coordinates) == len(array) && #1 <= len(array)
+//@     invariant [basic] fresh(coordinates) && len(coordinates) == len(array) && #1 <= len(array)
+//@     invariant [members] forall k int :: 0 <= k && k < #1 ==> jIs2(array[k], coordinates[k])
 
 //@ func decodeCoordinates4
 //@   prop C06, C07
 //@   mode fp
 //@   panics [not_a_4_level_number_array] !numArray4(jsonCoordinates)
-//@   ensures [shape] fresh(result) && typeof(jsonCoordinates) == []interface{} && len(result) == len(jsonCoordinates.([]interface{}))
+//@   ensures [values] fresh(result) && jIs4(jsonCoordinates, result)
 //@   modifies nothing
 //@   loop 1 `for i, element := range array`
-//@     invariant fresh(coordinates) && len(coordinates) == len(array) && #1 <= len(array)
+//@     invariant [basic] fresh(coordinates) && len(coordinates) == len(array) && #1 <= len(array)
+//@     invariant [members] forall k int :: 0 <= k && k < #1 ==> jIs3(array[k], coordinates[k])
 
 //@ pred pairs(cs [][]float64) = forall k int :: 0 <= k && k < len(cs) ==> len(cs[k]) == 2
 
@@ -127,6 +129,9 @@ package geojson
 //@ pred jXY(j interface{}, p geom.Point) = numArray(j) && len(j.([]interface{})) == 2 && biteq(j.([]interface{})[0].(float64), p.X) && biteq(j.([]interface{})[1].(float64), p.Y)
 //@ pred jXYs(j interface{}, ps []geom.Point) = typeof(j) == []interface{} && len(j.([]interface{})) == len(ps) && (forall k int :: 0 <= k && k < len(ps) ==> jXY(j.([]interface{})[k], ps[k]))
 
+//@ pred jXYss(j interface{}, pss []geom.Path) = typeof(j) == []interface{} && len(j.([]interface{})) == len(pss) && (forall k int :: 0 <= k && k < len(pss) ==> jXYs(j.([]interface{})[k], pss[k]))
+//@ pred jXYsss(j interface{}, psss [][]geom.Path) = typeof(j) == []interface{} && len(j.([]interface{})) == len(psss) && (forall k int :: 0 <= k && k < len(psss) ==> jXYss(j.([]interface{})[k], psss[k]))
+
 //@ func doFromGeoJSON
 //@   prop C06, C07
 //@   mode fp
@@ -135,12 +140,14 @@ package geojson
 //@   ensures [point] g.Type == "Point" ==> typeof(result) == geom.Point && jXY(g.Coordinates, result.(geom.Point))
 //@   ensures [multipoint] g.Type == "MultiPoint" ==> typeof(result) == geom.MultiPoint && len(result.(geom.MultiPoint)) >= 1 && jXYs(g.Coordinates, result.(geom.MultiPoint))
 //@   ensures [linestring] g.Type == "LineString" ==> typeof(result) == geom.LineString && len(result.(geom.LineString)) >= 1 && jXYs(g.Coordinates, result.(geom.LineString))
-//@   ensures [multilinestring] g.Type == "MultiLineString" ==> typeof(result) == geom.MultiLineString && typeof(g.Coordinates) == []interface{} && len(result.(geom.MultiLineString)) == len(g.Coordinates.([]interface{}))
-//@   ensures [polygon] g.Type == "Polygon" ==> typeof(result) == geom.Polygon && typeof(g.Coordinates) == []interface{} && len(result.(geom.Polygon)) == len(g.Coordinates.([]interface{}))
-//@   ensures [multipolygon] g.Type == "MultiPolygon" ==> typeof(result) == geom.MultiPolygon && typeof(g.Coordinates) == []interface{} && len(result.(geom.MultiPolygon)) == len(g.Coordinates.([]interface{}))
+//@   ensures [multilinestring] g.Type == "MultiLineString" ==> typeof(result) == geom.MultiLineString && jXYss(g.Coordinates, result.(geom.MultiLineString))
+//@   ensures [polygon] g.Type == "Polygon" ==> typeof(result) == geom.Polygon && jXYss(g.Coordinates, result.(geom.Polygon))
+//@   ensures [multipolygon] g.Type == "MultiPolygon" ==> typeof(result) == geom.MultiPolygon && jXYsss(g.Coordinates, result.(geom.MultiPolygon))
 //@   ensures [known_types_only] g.Type == "Point" || g.Type == "MultiPoint" || g.Type == "LineString" || g.Type == "MultiLineString" || g.Type == "Polygon" || g.Type == "MultiPolygon"
 //@   modifies nothing
 //@   loop 1 `for i, coord := range coordinates`
-//@     invariant fresh(multiLineString) && len(multiLineString) == len(coordinates) && #1 <= len(coordinates)
+//@     invariant [basic] fresh(multiLineString) && len(multiLineString) == len(coordinates) && #1 <= len(coordinates) && jIs3(g.Coordinates, coordinates)
+//@     invariant [members] forall k int :: 0 <= k && k < #1 ==> isXYs(coordinates[k], multiLineString[k])
 //@   loop 2 `for i, coord := range coordinates` #2
-//@     invariant fresh(multiPolygon) && len(multiPolygon) == len(coordinates) && #2 <= len(coordinates)
+//@     invariant [basic] fresh(multiPolygon) && len(multiPolygon) == len(coordinates) && #2 <= len(coordinates) && jIs4(g.Coordinates, coordinates)
+//@     invariant [members] forall k int :: 0 <= k && k < #2 ==> isXYss(coordinates[k], multiPolygon[k])
